@@ -74,6 +74,26 @@ example :
     viewD (Design.Contrast.code (toDesign (.sum (some "b"))) true (["a", "b", "c"].map Level.s)) =
       some ([[1, 1, 0], [1, -1, -1], [1, 0, 1]], ["mean", "a", "c"]) := by decide
 
+/-- **Agreement for levels of any type** (integer levels of `C(k)` / integer grouping columns are
+seen by the code through `str`): restated for the audit. -/
+theorem coding_models_agree_levels (c : Design.Contrast) (full : Bool) (levels : List Level)
+    (hne : levels ≠ [])
+    (hinj : ∀ x, Design.Contrast.option c = some x → ∀ b, b ∈ levels → x.label = b.label → x = b) :
+    viewD (Design.Contrast.code c full levels) =
+      viewC (Coding.Contrast.code (toCoding c) full (levels.map Level.label)) :=
+  code_agree_levels c full levels hne hinj
+
+/-- the hypothesis cannot be dropped: the option `"2"` (a string) is no level of `[1, 2, 3]`
+for the evaluation model, but `str` makes it one. -/
+theorem coding_models_agree_levels_counterexample :
+    viewD (Design.Contrast.code (.treatment (some (.s "2"))) false [.n 1, .n 2, .n 3]) = none ∧
+    viewC (Coding.Contrast.code (toCoding (.treatment (some (.s "2")))) false
+      ([Level.n 1, .n 2, .n 3].map Level.label)) ≠ none := by
+  decide
+
+example : viewD (Design.Contrast.code (.sum (some (.n 2))) false [.n 1, .n 2, .n 3]) =
+    some ([[1, 0], [-1, -1], [0, 1]], ["1", "3"]) := by decide
+
 theorem transfer {d : Design.M Design.ContrastMatrix} {c : Except Coding.Err Coding.ContrastMatrix}
     {cm : Coding.ContrastMatrix} (h : viewD d = viewC c) (hc : c = .ok cm) :
     ∃ cm', d = .ok cm' ∧ cm'.rows = cm.matrix ∧ cm'.labels = cm.labels := by
